@@ -23,6 +23,8 @@ impl StrH {
     #[verifier::external_body]
     pub fn eq_str(&self, o: &StrH) -> (r: bool) ensures r == (self.bytes() == o.bytes()) { self.s == o.s }
     #[verifier::external_body]
+    pub fn to_owned(&self) -> (r: StrH) ensures r.bytes() == self.bytes(), r.no_control() == self.no_control() { StrH { s: self.s.clone() } }
+    #[verifier::external_body]
     pub fn to_string(&self) -> (r: StrH) ensures r.bytes() == self.bytes(), r.no_control() == self.no_control() { StrH { s: self.s.clone() } }
 }
 impl Clone for StrH {
